@@ -72,6 +72,15 @@ class Stream(object):
         '''
         _logger.debug('Sending headers.')
 
+        if not self._connection.closed() and \
+                self._connection.has_unread_data():
+            # Whatever arrived while the connection was idle (surplus of the
+            # previous response, an unsolicited 408) is not an answer to
+            # the request about to be sent.
+            _logger.warning(_('Unexpected data on idle connection.'))
+            self.close()
+            yield from self.reconnect()
+
         if hasattr(request, 'prepare_for_send'):
             request.prepare_for_send(full_url=full_url)
 
@@ -193,6 +202,7 @@ class Stream(object):
         Coroutine.
         '''
         if is_no_body(request, response):
+            self._close_if_unread_data()
             return
 
         if not raw:
@@ -215,6 +225,15 @@ class Stream(object):
 
         if not self._keep_alive or should_close:
             _logger.debug('Not keep-alive. Closing connection.')
+            self.close()
+        else:
+            self._close_if_unread_data()
+
+    def _close_if_unread_data(self):
+        '''Discard the connection if more than the response was received.'''
+        if not self._connection.closed() and \
+                self._connection.has_unread_data():
+            _logger.warning(_('Content overrun.'))
             self.close()
 
     @asyncio.coroutine
